@@ -191,6 +191,7 @@ func c16Run(in c16In) (obs c16Obs) {
 	}
 	npub := 0
 	racing := 0 // ops still to be executed inside the window of a parked close
+	parked := 0 // 1 while a connection goroutine (the old connection's teardown) is parked in the gate
 	for _, op := range in.Ops {
 		if c15Stuck() {
 			obs.Bad = append(obs.Bad, "hung: case abandoned")
@@ -261,6 +262,7 @@ func c16Run(in c16In) (obs c16Obs) {
 					if env.gate.waitEntered() {
 						// the old connection is now between Client.close() and removeClient
 						racing = op.Race + 1
+						parked = 1
 					} else {
 						obs.Bad = append(obs.Bad, "hung: teardown never reached the Disconnect pipeline")
 						env.gate.open()
@@ -364,10 +366,16 @@ func c16Run(in c16In) (obs c16Obs) {
 			racing--
 			if racing == 0 {
 				env.gate.open()
+				parked = 0
 			}
 		}
 		if racing > 0 {
 			st.NoSnap = true
+			// no snapshot, but let this step's asynchronous session store land before the next one
+			// (Session.store() snapshots may reach the storage in either order otherwise)
+			if !c15Quiesce(env.open + parked) {
+				obs.Bad = append(obs.Bad, "hung: no quiescence inside the window")
+			}
 		} else if !st.Skip {
 			settle(&st)
 			st.Snap = c16Snapshot(env, conns)
